@@ -288,9 +288,22 @@ func init() {
 				if t, ok := opaqueOfStr(a[0].R.([]Value)[0]); ok && t.Ctor == "cidof" {
 					return opqStr(ot("cidstr", t.Args[0])), true // identifier of a document with symbolic fields
 				}
+				if _, conc := a[0].R.([]Value)[0].ConcStr(); conc {
+					return declined() // a concrete identifier built by the harness: run the real go-cid code
+				}
 				unsupported("String of non-atom cid")
 			}
 			return atomStr(at, "str"), true
+		},
+		// the multihash of an identifier handed out by the store: an opaque byte string of its own (distinct store
+		// identifiers are assumed to have distinct multihashes; identifiers sharing one are built concretely by
+		// the harness and run through the real go-cid code)
+		"(github.com/ipfs/go-cid.Cid).Hash": func(in *Interp, fr *Frame, a []Value) (Value, bool) {
+			at, ok := cidAtom(a[0])
+			if !ok {
+				return declined()
+			}
+			return Value{K: KSlice, R: &SliceV{S: []Value{{K: KOpaque, R: &OpaqueBytes{A: at, Tag: "mh"}}}}}, true
 		},
 		"(github.com/ipfs/go-cid.Cid).KeyString": func(in *Interp, fr *Frame, a []Value) (Value, bool) {
 			return a[0].R.([]Value)[0], true
@@ -311,6 +324,9 @@ func init() {
 				if t, ok := opaqueOfStr(a[0].R.([]Value)[0]); ok && t.Ctor == "cidof" {
 					return opqStr(ot("cidb58", t.Args[0])), true
 				}
+				if _, conc := a[0].R.([]Value)[0].ConcStr(); conc {
+					return declined()
+				}
 				unsupported("Encode of non-atom cid")
 			}
 			return atomStr(at, "b58"), true
@@ -320,6 +336,9 @@ func init() {
 			if !ok {
 				if t, ok := opaqueOfStr(a[0].R.([]Value)[0]); ok && t.Ctor == "cidof" {
 					return opqBytes(ot("cidbytes", t.Args[0])), true
+				}
+				if cs, conc := a[0].R.([]Value)[0].ConcStr(); conc && cs != "" {
+					return declined() // a concrete identifier built by the harness
 				}
 				return Value{K: KSlice, R: &SliceV{S: []Value{}}}, true // cid.Undef has no bytes
 			}
